@@ -147,7 +147,7 @@ def tryExisting : Nat → ExNode → PodSpecM → Bool → Bool → Bool
 def ephemeralTaint (t : Taint) : Bool :=
   (t.key == "node.kubernetes.io/not-ready" && (t.effect == "NoSchedule" || t.effect == "NoExecute")) ||
   (t.key == "node.kubernetes.io/unreachable" && t.effect == "NoSchedule") ||
-  (t.key == "node.cloudprovider.kubernetes.io/uninitialized" && t.effect == "NoSchedule" && t.value == "true") ||
+  (t.key == "node.cloudprovider.kubernetes.io/uninitialized" && t.effect == "NoSchedule") ||   -- `MatchTaint`: key and effect only
   (t.key == "karpenter.sh/unregistered" && t.effect == "NoExecute") ||
   t.key.startsWith "readiness.k8s.io/"
 
